@@ -339,6 +339,8 @@ HUGE = 1 << 40
 def fail_lists(tier):
     ls = [l for l in sort_lists(tier) if len(l) >= 4 and (tier != 'quick' or len(l) == 6)][:: (40 if tier == 'quick' else 60)]
     ls += [l for l in structured_lists(tier) if len(l) <= (21 if tier == 'quick' else 40)][:: (7 if tier == 'quick' else 1)]
+    # long inputs with runs: the run-detection phase of the merge sort compares too (ascending then a long descending run, and the reverse)
+    ls += [list(range(1, 11)) + list(range(40, 20, -1)), list(range(30, 18, -1)) + list(range(1, 13))]
     return ls
 
 
